@@ -5,7 +5,7 @@ for id in "$@"; do
  (
   wt=/tmp/mut/$id
   cd $wt || exit
-  for k in 1 2; do
+  for k in ${SEED_KS:-1 2}; do
     d=$wt/_seed/$k
     [ -f $d/patch.diff ] || continue
     git checkout -q -- lightworks
